@@ -20,13 +20,14 @@ RULE = ("every charge pattern of length <= Lp (quick 10, thorough 12) with a ran
 RULE += ("; added after the mutation rounds: several 1000-2000-residue chains analysed in one process (longer first, one repeated); every value asked twice; objects from lower-case text / around a backend object; the first cases of every shard are judged again at its end")
 RULE += ("; round 5: charged-residue counts 511..514, 769, 1023..1025; objects restored from pickle / copy; look-alike words (nucleotide strings, reading frames); salt shuffles with frozen entries that are no positions")
 RULE += ("; round 6: charged patches joined by charge-free linkers of 99-260 residues")
+RULE += ("; round 7: copies from get_shuffled_sequence with half / a quarter / every other position frozen (140-200 residues); texts typed with one residue type in lower case; thorough tier: a 4202-residue chain with charges more than 4096 apart")
 EXHAUSTIVE = {"quick": False, "thorough": False}
 EXHAUSTIVE_NOTE = {"quick": "all patterns of length <= 10 (88,572)", "thorough": "all patterns of length <= 12 (797,160)"}
 ASSUMPTIONS = [
     "q=+1 for K/R, -1 for D/E, 0 otherwise; agreement judged to 1e-9 relative + 1e-12 absolute",
     "anchors: SCD(sv1=(EK)25) = -0.41 and SCD(sv30=E25K25) = -27.84 as published by Sawle & Ghosh (2 decimals)",
 ]
-REQUIRED = {"all": ["salted_objects", "charged_counts_next_to_512_1024", "fewer_than_two_charges", "charged_first_residue", "charged_last_residue", "long_repetitive",
+REQUIRED = {"all": ["salted_objects", "texts_with_one_residue_type_in_lower_case", "shuffled_copies_with_large_frozen_regions", "charged_counts_next_to_512_1024", "fewer_than_two_charges", "charged_first_residue", "charged_last_residue", "long_repetitive",
                     "after_other_queries", "anchors", "longer_than_1000", "second_calls"]}
 LP = {"quick": 10, "thorough": 12}
 NRANDOM = {"quick": 500, "thorough": 5000}
@@ -53,6 +54,15 @@ def cases(tier, seed):
         yield {"k": "seq", "s": ("KE" * 600)[:nc], "pre": 0, "tile": 1}
         if nc in (513, 1025):
             yield {"k": "seq", "s": "G" * 7 + ("KKE" * 400)[:nc - 1] + "GGG" + "D", "pre": 0, "tile": 1}
+    # separations beyond 4096 residues (one chain; the library's pair loop needs ~15 s for it)
+    if tier == "thorough":
+        yield {"k": "seq", "s": "KE" + "G" * 2000 + "D" + "S" * 2197 + "RK", "pre": 0}
+    # text typed with ONE residue type in lower case (the constructor upper-cases everything; 'pS' is Pro-Ser)
+    for text in ["RRApTVADEK", "GpSGpYKKE", "ApTpSpYEEK", "pSpSpSKKKK", "KKEpSDDpTRR", "RRAPtVADEk", "eEeEkKkK", "GsGsGsKKEE", "mKDEpSGGpYpTR", "pK", "Kp"]:
+        yield {"k": "typed", "text": text}
+    # objects handed out by get_shuffled_sequence with large frozen regions: the copy's SCD is the sum over the copy's own sequence
+    for j, (n, how) in enumerate([(140, "first_half"), (141, "first_half"), (200, "last_half"), (160, "every_other"), (150, "first_quarter")]):
+        yield {"k": "shuffled", "n": n, "how": how, "o": j}
     yield {"k": "longs", "lens": [1400, 1050, 1050] if tier == "quick" else [2000, 1400, 1050, 1050, 1200]}
     for L in range(1, LP[tier] + 1):
         for pat in gen.all_patterns(L):
@@ -94,6 +104,34 @@ def judge(case, rep, S):
             if not M.close(float(got), want):
                 rep.viol("scd_value", "get_SCD of a %d-residue sequence = %r, the Sawle-Ghosh sum gives %r (sequences of lengths %r analysed in this order in one process)" % (
                     n, got, want, case["lens"]), sig={"N": n})
+        return
+    if case["k"] == "typed":
+        text = case["text"]
+        seq = "".join(text.upper().split())
+        o = S["SP"](text)
+        rep.cnt("texts_with_one_residue_type_in_lower_case")
+        got, want = o.get_SCD(), M.scd_ref(M.pattern(seq))
+        if o.get_sequence() != seq or not M.close(float(got), want):
+            rep.viol("scd_value", "SequenceParameters(%r): sequence %r, get_SCD %r; the upper-cased text %s gives %r" % (text, o.get_sequence(), got, seq, want),
+                     sig={"N": len(seq), "typed": True})
+        return
+    if case["k"] == "shuffled":
+        rng = gen.sub_rng(case["o"], ID, "shuffled")
+        n = case["n"]
+        parent_seq = gen.rand_seq(rng, "polyampholyte", lo=n, hi=n)[:n - 20] + "".join(rng.choice("GSTQ") for _ in range(20))
+        frozen = {"first_half": list(range(n // 2)), "last_half": list(range(n // 2, n)), "every_other": list(range(0, n, 2)),
+                  "first_quarter": list(range(n // 4))}[case["how"]]
+        parent = S["SP"](parent_seq)
+        for form in (list, set, tuple):
+            child = parent.get_shuffled_sequence(form(frozen))
+            cseq = child.get_sequence()
+            rep.cnt("shuffled_copies_with_large_frozen_regions")
+            got = child.get_SCD()
+            want = M.scd_ref(M.pattern(cseq))
+            if sorted(cseq) != sorted(parent_seq) or not M.close(float(got), want):
+                rep.viol("scd_value", "get_SCD of the copy returned by get_shuffled_sequence(%s of %d positions frozen) = %r; its own sequence %s gives %r" % (
+                    case["how"], n, got, cseq[:60], want), sig={"N": n, "shuffled_copy": True})
+                return
         return
     if case["k"] == "pat":
         pat = M.pat_from_str(case["p"])
